@@ -161,7 +161,8 @@ pub fn run(ctx: &Ctx) -> Report {
         match r.below(60) {
             0 => {
                 // series longer than any block size a summation shortcut might use, with cogeneration
-                o.steps = Some(*r.pick(&[1100usize, 1500, 2049]));
+                // (a leap year of hourly values has 8784 steps; half of it splits into 8784 sub-steps)
+                o.steps = Some(*r.pick(&[1100usize, 1500, 2049, 1100, 1500, 2049, 4392, 8784]));
                 o.cogen = Tri::Always;
                 m = 2;
             }
@@ -190,7 +191,7 @@ pub fn run(ctx: &Ctx) -> Report {
     ];
     Report {
         tally,
-        rule: "generated buildings (cogeneration with uneven fuel / electricity profiles, load matching, exports) are evaluated as declared, with their steps reordered by a random permutation, and with every step split into m equal sub-steps (m in 2..4, thorough up to 12; values generated as multiples of m grid units so that value / m stays >= 0.01 kWh, except a regime of very small amounts whose sub-steps go down to 0.0025 kWh - above the library's 1e-3 kWh guards -, and a regime of 1100..2049-step series with cogeneration); every annual field must agree and every per-step vector must follow the permutation / subdivision; non-trivial = more than one step and a profile that is not flat; distinct = distinct (components text, factors, k_exp, area, mode)".into(),
+        rule: "generated buildings (cogeneration with uneven fuel / electricity profiles, load matching, exports) are evaluated as declared, with their steps reordered by a random permutation, and with every step split into m equal sub-steps (m in 2..4, thorough up to 12; values generated as multiples of m grid units so that value / m stays >= 0.01 kWh, except a regime of very small amounts whose sub-steps go down to 0.0025 kWh - above the library's 1e-3 kWh guards -, and a regime of 1100..2049-step series, and of 4392 / 8784-step series, with cogeneration); every annual field must agree and every per-step vector must follow the permutation / subdivision; non-trivial = more than one step and a profile that is not flat; distinct = distinct (components text, factors, k_exp, area, mode)".into(),
         assumptions: vec!["summation order changes with the layout: comparison within atol 1e-4 + rtol * cancellation scale (scales from the f64 reference model)".into()],
         quotas,
     }
